@@ -189,7 +189,7 @@ def run(ctx):
         at, kw = recurrence(Gr, None)
         lvn = at.params()[1]
         shp = kw.get("shape", "")
-        fname = shp[len("self.shape0*"):] if shp.startswith("self.shape0*") else None
+        fname = shp[len("self.shape0*"):] if shp.startswith("self.shape0*") else (shp[:-len("*self.shape0")] if shp.endswith("*self.shape0") else None)
         ok = kw.get("splits", "").startswith(f"self.splits[{lvn}]") and kw.get("parent_splits", "").startswith(f"self.splits[{lvn}-1]") and bool(fname)
         fct = [st for st in ast.walk(at.node) if isinstance(st, ast.Assign) and src(st.targets[0]) == fname and "reduce" in src(st.value)]
         strip = lambda z: z.replace(" ", "").replace("(", "").replace(")", "")  # noqa: E731
@@ -334,7 +334,7 @@ def run(ctx):
         ok = strip("tuple(slice(pp,sh-pp)forsh,ppinzip(self.shape,self.padding))") in t
         fi2 = OG.methods["_is_index_refined"]
         t2 = " ".join(strip(src(st)) for st in fi2.node.body)
-        ok = ok and strip("(ii>=pp)*(ii<sh-pp)") in t2 and strip("zip(index,self.padding,self.shape)") in t2
+        ok = ok and (strip("(ii>=pp)*(ii<sh-pp)") in t2 or strip("(ii<sh-pp)*(ii>=pp)") in t2) and strip("zip(index,self.padding,self.shape)") in t2
         return ok, None
     decide("R31.2", f"{OG.key}::refined indices are exactly [padding, shape - padding)", open_refined, OG.methods["refined_indices"])
 
@@ -360,7 +360,7 @@ def run(ctx):
     def open_volume():
         fi = OG.methods["index2volume"]
         ctx.saw_func(fi)
-        szd = [st for st in walk_no_nested(fi.node) if isinstance(st, ast.Assign) and src(st.value).replace(" ", "") == "np.prod(self.shape+2*self.shifts)"]
+        szd = [st for st in walk_no_nested(fi.node) if isinstance(st, ast.Assign) and src(st.value).replace(" ", "") in ("np.prod(self.shape+2*self.shifts)", "np.prod(self.shape+self.shifts*2)")]
         rr = [r for r in walk_no_nested(fi.node) if isinstance(r, ast.Return)]
         ok = len(szd) == 1 and len(rr) == 1 and src(rr[0].value).replace(" ", "").startswith(f"np.array(1.0/{src(szd[0].targets[0])})")
         # extent of the next level = split * extent of this level
